@@ -407,6 +407,10 @@ pub struct ReplayStats {
     pub cycles_answered: usize,
     pub contended_claims: usize,
     pub states_with_transfers: usize,
+    /// `transfer_lock` calls whose new owner is the query itself or (vacant entry) is already
+    /// transitively transferred to the query: the explicit hypothesis of the Lean theorem
+    /// `w4_forest`, not asserted by the Rust code. Expected 0.
+    pub w4_precondition_violations: usize,
 }
 
 #[derive(Debug, Clone)]
@@ -485,6 +489,24 @@ pub fn replay(lines: &[String]) -> Result<ReplayStats, ReplayError> {
                     let kind_logged = *args.get(7)?;
                     let block_logged = *args.get(8)? == "1";
                     let before = dg.transferred.get(&query).copied();
+                    {
+                        let mut p = new_owner;
+                        let mut fuel = dg.transferred.len() + 2;
+                        let mut hits = p == query;
+                        while before.is_none() && !hits && fuel > 0 {
+                            match dg.transferred.get(&p) {
+                                Some(&(_, o)) => {
+                                    p = o;
+                                    hits = p == query;
+                                }
+                                None => break,
+                            }
+                            fuel -= 1;
+                        }
+                        if hits {
+                            st.w4_precondition_violations += 1;
+                        }
+                    }
                     let fmt_entry = |e: Option<(Thread, Key)>| match e {
                         Some((t, k)) => format!("t{t},{}", fmt_key(&k)),
                         None => "-".to_string(),
